@@ -216,6 +216,12 @@ pub enum Op {
     IterCheck { m: u8, kind: IterKind, clone_at: Option<u32> },
     EqCheck { a: u8, b: u8 },
     DebugCheck { m: u8 },
+    /// C16: serialise map `m` to tokens, compare with len()+iter(), deserialise, compare.
+    SerdeMap { m: u8 },
+    /// C16: same for set `s`; then deserialize_in_place into set `dst` from a stream whose
+    /// size hint lies (`hint`: 0 = honest, 1 = None, 2 = zero, 3 = too small, 4 = usize::MAX)
+    /// and which optionally fails at element `fail_at`.
+    SerdeSet { s: u8, dst: u8, hint: u8, fail_at: Option<u32> },
     /// C04 probe: insert capacity()-len() fresh keys (at most `max`).
     Probe { m: u8, max: u32 },
     // ---- sets
@@ -281,6 +287,8 @@ impl Op {
             Op::IterCheck { .. } => "iter_check",
             Op::EqCheck { .. } => "eq_check",
             Op::DebugCheck { .. } => "debug_check",
+            Op::SerdeMap { .. } => "serde_map",
+            Op::SerdeSet { .. } => "serde_set",
             Op::Probe { .. } => "probe",
             Op::SInsert { .. } => "set_insert",
             Op::SReplace { .. } => "set_replace",
